@@ -61,6 +61,7 @@ THEOREMS = [("Kopf.Props.C11", "Kopf.C11." + n) for n in [
     "delay_respected", "delay_respected_succ", "final_is_last",
     "retries_bound", "retries_bound_scratch", "retries_bound_tight",
     "timeout_bound", "timeout_refuses", "timeout_failed_for_good_partial", "timeout_sleep_past_witness",
+    "timer_permanent_restarts_witness", "timer_retries_exceeded_witness", "timer_series_is_loop",
     "restart_roundtrip", "restart_invariant", "loop_is_run", "loop_retries_bound", "loop_timeout_bound",
     "loop_delay_respected",
 ]]
@@ -95,6 +96,15 @@ EPOCH = simloop.EPOCH
 
 class NonDyadic(Exception):
     pass
+
+
+class Escaped(Exception):
+    """An exception came out of the kopf code under test (it must turn handler errors into outcomes)."""
+
+    def __init__(self, where: str, exc: BaseException) -> None:
+        super().__init__(f"{where} raised {type(exc).__name__}: {exc}")
+        self.where = where
+        self.exc = exc
 
 
 def sec(t: int | None) -> float | None:
@@ -389,7 +399,30 @@ def oracle_sequence(l: dict, default_errors: str, default_backoff: int, events: 
     return bad
 
 
+F1_SHAPE = "failed-timer-invoked-again"
+
+
+def oracle_timer_life(l: dict, series: list[list[dict]]) -> list[tuple[str, str]]:
+    """The property over the whole life of one timer (docs/timers.rst: "For PermanentError, the timer
+    stops forever and is not retried"): once a series is recorded as failed for good, the function
+    is never invoked again; hence also at most N invocations in total with retries=N."""
+    bad: list[tuple[str, str]] = []
+    failed_at = None
+    for series_events in series:
+        atts = [e for e in series_events if e["ev"] == "attempt"]
+        if failed_at is not None and any(e["invoked"] for e in atts):
+            first = next(e for e in atts if e["invoked"])
+            bad.append((F1_SHAPE, f"the timer was recorded as failed for good at {failed_at} and its function "
+                        f"was invoked again at {first['time']} with retry={first['retry_kwarg']}"))
+            break
+        if failed_at is None and atts and atts[-1]["rec"] and atts[-1]["rec"]["failure"]:
+            failed_at = atts[-1]["merged"]
+    return bad
+
+
 def signature(shape: str, site: str) -> dict:
+    if shape == F1_SHAPE:
+        return {"site": "daemons._timer", "shape": F1_SHAPE}
     return {"site": site, "shape": shape}
 
 
@@ -480,23 +513,26 @@ async def eval_point(p: dict, via_batch: bool, settings_cache: dict) -> dict:
     rec0 = rec_of_state(hs)
     default_errors = k_mode(p["default_errors"])
     res: dict[str, Any] = {"rec0": rec0, "now": now}
-    if via_batch:
-        state = K.progression.State({handler.id: hs}, basetime=basetime)
-        outcomes = await K.execution.execute_handlers_once(
-            lifecycle=K.lifecycles.all_at_once, settings=settings, handlers=[handler], cause=cause, state=state,
-            default_errors=default_errors)
-        res["awake"] = handler.id in outcomes
-        if res["awake"]:
-            o = outcomes[handler.id]
-            hs2 = state.with_outcomes(outcomes)[handler.id]
-        elif calls:
-            res["awake"] = "called-without-outcome"
-    else:
-        res["awake"] = bool(hs.awakened)
-        if res["awake"]:
-            o = await K.execution.execute_handler_once(settings=settings, handler=handler, cause=cause, state=hs,
-                                                       default_errors=default_errors)
-            hs2 = hs.with_outcome(o)
+    try:
+        if via_batch:
+            state = K.progression.State({handler.id: hs}, basetime=basetime)
+            outcomes = await K.execution.execute_handlers_once(
+                lifecycle=K.lifecycles.all_at_once, settings=settings, handlers=[handler], cause=cause, state=state,
+                default_errors=default_errors)
+            res["awake"] = handler.id in outcomes
+            if res["awake"]:
+                o = outcomes[handler.id]
+                hs2 = state.with_outcomes(outcomes)[handler.id]
+            elif calls:
+                res["awake"] = "called-without-outcome"
+        else:
+            res["awake"] = bool(hs.awakened)
+            if res["awake"]:
+                o = await K.execution.execute_handler_once(settings=settings, handler=handler, cause=cause, state=hs,
+                                                           default_errors=default_errors)
+                hs2 = hs.with_outcome(o)
+    except Exception as e:
+        res["awake"] = f"escaped-exception:{type(e).__name__}"
     if res["awake"] is True:
         res["invoked"] = bool(calls)
         res["out"] = out_json(o, bool(calls), raised_exc)
@@ -528,7 +564,7 @@ def oracle_point(ctx: Ctx, p: dict, res: dict, via: str) -> bool:
     bad: list[tuple[str, str]] = []
     if res["awake"] is not True:
         if res["awake"] is not False:
-            bad.append(("called-without-outcome", "the function was called but no outcome was reported"))
+            bad.append((str(res["awake"]).split(":")[0], f"no outcome was reported: {res['awake']}"))
         elif not (finished or sleeping):
             bad.append(("due-handler-skipped", "an unfinished handler whose delay has passed was not executed"))
     else:
@@ -560,7 +596,7 @@ async def run_grid(ctx: Ctx, points: list[dict], use_model: bool = True) -> None
             out = res.get("out") or {}
             trivial = res["awake"] is True and p["x"][0] == "ok" and out.get("invoked") and p["timeout"] is None and p["retries"] is None
             ctx.case(key=point_key(p, res), nontrivial=not trivial,
-                     sample={"grid_point": p, "impl": point_impl(res)} if ctx.evaluations % 997 == 0 else None)
+                     sample={"grid_point": p, "impl": point_impl(res)} if ctx.evaluations % 2999 == 0 else None)
             ctx.count("grid.raised", p["x"][0])
             ctx.count("grid.mode", f"{p['errors']}/{p['default_errors']}")
             ctx.count("grid.branch", (f"awake={res['awake']}" if res["awake"] is not True else
@@ -715,6 +751,7 @@ class ChangeWorld:
         else:
             self.top = [mk_handler("changing", h["id"], self.scripts[h["id"]].make_fn(), h["limits"])
                         for h in hist["handlers"]]
+        self.escaped: BaseException | None = None
         self.plan_i = 0
         self.over = False
         self.cycles = 0
@@ -734,6 +771,11 @@ class ChangeWorld:
             except K.execution.HandlerChildrenRetry as e:
                 call["exc"] = e
                 call["x"] = ["children", tk(e.delay)]
+                raise
+            except Exception as e:
+                call["exc"] = e
+                call["x"] = ["arbitrary"]
+                world.escaped = e
                 raise
             else:
                 call["x"] = ["ok"]
@@ -764,12 +806,17 @@ class ChangeWorld:
         pre = {h.id: len(self.scripts[h.id].calls) for h in self.top}
         before = {h.id: rec_of_state(state[h.id]) for h in self.top}
         peeks = {h.id: self.scripts[h.id].peek() for h in self.top}
-        outcomes = await K.execution.execute_handlers_once(
-            lifecycle=K.lifecycles.all_at_once, settings=self.settings, handlers=self.top, cause=cause, state=state,
-            extra_context=K.subhandling.subhandling_context)
-        state = state.with_outcomes(outcomes)
-        merged = now_ticks()
-        state.store(body=body, patch=patch, storage=self.storage)
+        try:
+            outcomes = await K.execution.execute_handlers_once(
+                lifecycle=K.lifecycles.all_at_once, settings=self.settings, handlers=self.top, cause=cause, state=state,
+                extra_context=K.subhandling.subhandling_context)
+            state = state.with_outcomes(outcomes)
+            merged = now_ticks()
+            state.store(body=body, patch=patch, storage=self.storage)
+        except Exception as e:
+            raise Escaped("execute_handlers_once/with_outcomes/store", e) from e
+        if self.escaped is not None:
+            raise Escaped("kopf.execute (sub-handlers)", self.escaped)
         self.body = merge_patch(self.body, dict(patch))
         self.record_batch(self.top, t, merged, pre, before, peeks, outcomes, {h.id: state[h.id].finished for h in self.top})
         if self.sub:
@@ -977,16 +1024,21 @@ def run_inmem_history(hist: dict) -> dict:
                 except K.activities.ActivityError as e:
                     result["raised"] = "ActivityError"
                     result["final_exc"] = {hid: type(o.exception).__name__ for hid, o in e.outcomes.items()}
+                except Exception as e:
+                    raise Escaped("run_activity", e) from e
             else:
                 cause = K.causes.DaemonCause(resource=resource, indices=indexers.indices, logger=K.logger,
                                              memo=K.ephemera.Memo(), body=body, patch=K.patches.Patch(), stopper=stopper)
-                if kind == "daemon":
-                    handler = mk_handler("daemon", hd["id"], fn, hd["limits"])
-                    await K.daemons._daemon(settings=settings, handler=handler, cause=cause)
-                else:
-                    handler = mk_handler("timer", hd["id"], fn, hd["limits"], interval=hist["interval"], sharp=hist.get("sharp"))
-                    await K.daemons._timer(settings=settings, handler=handler, cause=cause,
-                                           memory=K.daemons.DaemonsMemory())
+                try:
+                    if kind == "daemon":
+                        handler = mk_handler("daemon", hd["id"], fn, hd["limits"])
+                        await K.daemons._daemon(settings=settings, handler=handler, cause=cause)
+                    else:
+                        handler = mk_handler("timer", hd["id"], fn, hd["limits"], interval=hist["interval"], sharp=hist.get("sharp"))
+                        await K.daemons._timer(settings=settings, handler=handler, cause=cause,
+                                               memory=K.daemons.DaemonsMemory())
+                except Exception as e:
+                    raise Escaped("_daemon/_timer", e) from e
         result["ended"] = now_ticks()
 
     simloop.run_sim(main, wall_limit=120.0)
@@ -1050,6 +1102,15 @@ def history_checks(hist: dict) -> list[dict]:
     db = hist["default_backoff"]
     env = env_json("temporary", db)
     checks = []
+    try:
+        return _history_checks(hist, kind, db, env)
+    except Escaped as e:
+        return [{"hid": "*", "limits": {}, "events": [], "request": None, "impl": None,
+                 "oracle": [("escaped-exception", f"a handler error escaped instead of becoming an outcome: {e}")]}]
+
+
+def _history_checks(hist: dict, kind: str, db: int, env: dict) -> list[dict]:
+    checks = []
     if kind in ("change", "pair", "sub"):
         obs = run_change_history(hist)
         for hid, events in obs["events"].items():
@@ -1082,6 +1143,13 @@ def history_checks(hist: dict) -> list[dict]:
             checks.append({"hid": f"{hist['handlers'][0]['id']}#{si}", "limits": l, "events": events,
                            "request": ["C11.loop", env, l, atts[0]["started"], script],
                            "impl": impl_events(atts), "oracle": bad})
+        if kind == "timer":
+            life = [e for series in obs["series"] for e in series if e["ev"] == "attempt"]
+            if life:
+                checks.append({"hid": f"{hist['handlers'][0]['id']}#life", "limits": l, "events": [],
+                               "request": ["C11.timer", env, l, hist["interval"], bool(hist.get("sharp")), life[0]["time"],
+                                           [[e["x"], e["dur"]] for e in life]],
+                               "impl": impl_events(life), "oracle": oracle_timer_life(l, obs["series"])})
         if obs["stray_calls"]:
             checks.append({"hid": "stray", "limits": l, "events": [], "request": None, "impl": None,
                            "oracle": [("call-outside-execution", "the function was called outside a recorded execution")]})
@@ -1193,19 +1261,25 @@ def run_case(ctx: Ctx, case: dict, use_model: bool = True) -> None:
 def run(ctx: Ctx) -> None:
     from ..core import load_corpus
     K.load()
-    for name, case in load_corpus(ID):
+    corpus = load_corpus(ID)
+    for name, case in corpus:
         ctx.count("corpus", name)
-        run_case(ctx, case)
+    cpoints = [c["point"] for _, c in corpus if c.get("part") == "grid"]
+    chists = [c["hist"] for _, c in corpus if c.get("part") == "history"]
+    if cpoints:
+        simloop.run_sim(lambda: run_grid(ctx, cpoints), wall_limit=120.0)
+    if chists:
+        run_histories(ctx, chists)
     points = list(grid_points())
     total = len(points)
-    n = ctx.budget(3000, total)
+    n = ctx.budget(6000, total)
     if n < total:
         points = ctx.rng.sample(points, n)
     simloop.run_sim(lambda: run_grid(ctx, points), wall_limit=600.0)
     ctx.extra["grid_total_points"] = total
     ctx.extra["grid_points_run"] = len(points)
     ctx.exhaustive = (len(points) == total)
-    hists = [gen_history(ctx.rng) for _ in range(ctx.budget(250, 6000))]
+    hists = [gen_history(ctx.rng) for _ in range(ctx.budget(1000, 12000))]
     run_histories(ctx, hists)
     ctx.extra["histories"] = len(hists)
 
